@@ -368,3 +368,24 @@ func ParallelFor(n, workers int, f func(i int)) {
 	close(ch)
 	wg.Wait()
 }
+
+// WorkerHook lets an engine register a subprocess entry point: `<bin> worker <args...>`.
+var WorkerHook func(args []string) int
+
+// Main is the shared entry point of the per-property commands.
+func Main(id, level, engine string, run func(*Run)) int {
+	if len(os.Args) >= 2 && os.Args[1] == "worker" {
+		if WorkerHook == nil {
+			fmt.Fprintln(os.Stderr, "no worker registered")
+			return 2
+		}
+		return WorkerHook(os.Args[2:])
+	}
+	if len(os.Args) < 2 || (os.Args[1] != "quick" && os.Args[1] != "thorough") {
+		fmt.Fprintf(os.Stderr, "usage: %s quick|thorough\n", os.Args[0])
+		return 2
+	}
+	r := NewRun(id, os.Args[1], level, engine)
+	run(r)
+	return r.Finish()
+}
